@@ -441,7 +441,7 @@ func drawKAP(t *rapid.T) kapCase {
 // compared with GB/T 32918.3 as computed by the model, and the ecdh package is
 // run on the same inputs.
 func TestC08_Agreement(t *testing.T) {
-	h.Prop(t, h.P{Name: "agreement", Quick: 900, Thorough: 40000, Journal: true}, drawKAP, checkKAP)
+	h.Prop(t, h.P{Name: "agreement", Quick: 700, Thorough: 20000, Journal: true}, drawKAP, checkKAP)
 }
 
 // TestC08_EdgeScalarSweep: the cross product of edge scalars for one side
